@@ -257,6 +257,30 @@ fn main() {
         sweep(&run, x, &ps, &mut t);
         t
     });
+    // S5: sparse tails behind the p-th digit
+    let tail_lens: Vec<usize> = if tier.is_thorough() { (0..=72).chain([100, 127, 128, 129]).collect() } else { (0..=40).chain([63, 64, 65]).collect() };
+    let tails = sparse_tails(&tail_lens);
+    run.bound("S5_tail_lengths", json!(tail_lens));
+    run.par("S5 sparse tails (one non-zero digit at every position)", tails.len(), |i| {
+        let mut t = Tally::default();
+        for head in ["1", "2", "19", "99", "1234"] {
+            for d0 in ['0', '5', '4', '9'] {
+                let digits = format!("{}{}{}", head, d0, tails[i]);
+                for sign in [1, -1] {
+                    for s in [0i128, 7] {
+                        let x = Dec { n: big(&digits) * sign, s };
+                        let p = head.len() as u64;
+                        let mut ps = vec![p, p + 1];
+                        if p > 1 {
+                            ps.push(p - 1);
+                        }
+                        sweep(&run, &x, &ps, &mut t);
+                    }
+                }
+            }
+        }
+        t
+    });
     let _ = num_bigint::BigInt::zero();
     run.finish();
 }
